@@ -84,7 +84,7 @@ func vf40Confs(variant int) map[string]*conf.Path {
 	return out
 }
 
-func vf40Stress(t testing.TB, run int, dur time.Duration, workers int, seed uint64) *vf40Run {
+func vf40Stress(t testing.TB, run int, dur time.Duration, workers int, seed uint64, focus bool) *vf40Run {
 	pm := &pathManager{
 		writeQueueSize: 8, udpMaxPayloadSize: 1472, rtpMaxPayloadSize: 1450,
 		readTimeout: conf.Duration(10 * time.Second), writeTimeout: conf.Duration(10 * time.Second),
@@ -138,7 +138,15 @@ func vf40Stress(t testing.TB, run int, dur time.Duration, workers int, seed uint
 					return
 				}
 				name := names[rnd.IntN(len(names))]
-				switch rnd.IntN(10) {
+				kind := rnd.IntN(10)
+				if focus {
+					// the delicate orders of Channels.tla: a path that tells the manager something
+					// (setPathReady after a publish) while the manager closes it (cold reload),
+					// and readers of the path configuration during hot reloads
+					name = "cam"
+					kind = []int{0, 0, 0, 3, 9, 9, 9, 10, 10, 6}[rnd.IntN(10)]
+				}
+				switch kind {
 				case 0, 1, 2:
 					c := &vf40Client{pm: pm, pub: true}
 					do("publish", func() string {
@@ -184,8 +192,29 @@ func vf40Stress(t testing.TB, run int, dur time.Duration, workers int, seed uint
 					do("apilist", func() string { _, err := pm.APIPathsList(); return errKind(err) })
 				case 8:
 					do("apiget", func() string { _, err := pm.APIPathsGet(name); return errKind(err) })
+				case 10:
+					// what protocol sessions do with the path they hold: read its configuration
+					c := &vf40Client{pm: pm}
+					do("read", func() string {
+						r, err := pm.AddReader(defs.PathAddReaderReq{Author: c,
+							AccessRequest: defs.PathAccessRequest{Name: name, SkipAuth: true}})
+						if err != nil {
+							return errKind(err)
+						}
+						pa := r.Path.(*path)
+						c.path.Store(pa)
+						for k := 0; k < 20; k++ {
+							_ = r.Path.SafeConf().MaxReaders
+							_ = r.Path.ExternalCmdEnv()
+						}
+						pa.RemoveReader(defs.PathRemoveReaderReq{Author: c})
+						return "ok"
+					})
 				default:
 					v := rnd.IntN(20)
+					if focus {
+						v = rnd.IntN(4) // keep the static path, alternate hot and cold changes
+					}
 					do("reload", func() string { pm.ReloadPathConfs(vf40Confs(v)); return "ok" })
 				}
 			}
@@ -233,7 +262,7 @@ func TestVerif_C40_Stress(t *testing.T) {
 	rounds := verifrt.Param("ROUNDS", 4)
 	ms := verifrt.Param("MS", 400)
 	for i := 0; i < rounds; i++ {
-		r := vf40Stress(t, i, time.Duration(ms)*time.Millisecond, 8, verifrt.Seed()*1000+uint64(i))
+		r := vf40Stress(t, i, time.Duration(ms)*time.Millisecond, 8, verifrt.Seed()*1000+uint64(i), i%2 == 1)
 		out.Emit(r)
 		if r.Dump != "" {
 			break // goroutines of a hung run are abandoned; do not pile further runs on top
